@@ -27,7 +27,7 @@ import (
 // Family wallet (C43): the real account package on a wallet file under $TMPDIR.
 // Keys are named A0, A1, ... in creation order (real addresses are never compared); labels and passwords are hex.
 //
-//	open <def|low>                      -> ok                    (low: the file exists with scrypt N=4096, as `account export --low-security` writes it)
+//	open <def|low|tiny>                    -> ok                    (low: the file exists with scrypt N=4096, as `account export --low-security` writes it)
 //	new <label> <alg> <curve> <scheme> <pw>     -> ok A<i> def=<b> | err:<class>
 //	import <label> <new|A<j>> <pw> <gcm|ctr> <scheme> <alg> <curve>  -> ok A<i> def=<b> | err:<class>
 //	get <A> <pw> | getlabel <label> <pw> | getidx <n> <pw> | getdef <pw>  -> nil | ok A<i> | ok other | err:<class>
@@ -35,7 +35,7 @@ import (
 //	del <A> <pw>                        -> ok A<i> | nil | err:<class>
 //	setdef <A> | setlabel <A> <label> | chpw <A> <old> <new> | chsig <A> <scheme>  -> ok | err:<class>
 //	seclevel <low|def> <pw,..>          -> ok | err:count | err:failed:<i> | panic   (passwords in wallet-file order; ok is followed by a save)
-//	exportlow | save | ximport <A> | chpwfault <A> <old> <new> | chpwconc <A> <old> <new,..> | chpwwon <A> <old> <new>   (see Exec)
+//	exportlow <pw,..> | save | ximport <A> | chpwfault <A> <old> <new> | chpwconc <A> <old> <new,..> | chpwwon <A> <old> <new>   (see Exec)
 //	reload                              -> ok n=<GetAccountNum> file=<accounts in file>
 //	num                                 -> <n>
 //	auditlive                           -> ok     (the same on the live client)
@@ -215,9 +215,12 @@ func (f *walletFam) accResult(acc *account.Account, err error) string {
 func (f *walletFam) Exec(r *hx.Run, op []string) string {
 	switch op[0] {
 	case "open":
-		if op[1] == "low" {
+		if op[1] == "low" || op[1] == "tiny" {
 			wd := account.NewWalletData()
 			wd.Scrypt = &keypair.ScryptParam{N: 4096, R: 8, P: 8, DKLen: 64}
+			if op[1] == "tiny" { // the wallet format allows any parameters: cheap ones keep long histories affordable
+				wd.Scrypt = &keypair.ScryptParam{N: 256, R: 8, P: 1, DKLen: 64}
+			}
 			if err := wd.Save(f.path); err != nil {
 				return "err:io"
 			}
@@ -431,8 +434,10 @@ func (f *walletFam) Exec(r *hx.Run, op []string) string {
 		// the `account export --low-security` flow: Clone(), ToLowSecurity on the clone, Save to another file. The
 		// wallet it was cloned from must not notice.
 		var pws [][]byte
-		for _, l := range f.order {
-			pws = append(pws, l.pw)
+		if len(op) > 1 && op[1] != "-" {
+			for _, h := range strings.Split(op[1], ",") {
+				pws = append(pws, hx.UnHex(h))
+			}
 		}
 		clone := f.cli.GetWalletData().Clone()
 		if err := clone.ToLowSecurity(pws); err != nil {
@@ -778,7 +783,7 @@ var keyKinds = []keyKind{
 func (f *walletFam) Gen(r *hx.Run) {
 	r.Rule("wallet histories on a temp file: every key kind (ECDSA P-224/256/384/521/secp256k1, SM2, Ed25519) created with NewAccount and imported (aes-256-gcm and legacy aes-256-ctr protected keys), default and low-security scrypt parameters, passwords empty/1 byte/unicode/invalid UTF-8/1500 bytes, labels empty/unicode/JSON-special/long, duplicate labels and duplicate addresses, wrong-password reads, delete/default/label/password/scheme changes, reload after every few ops, audit of the property on a re-opened file; distinct non-trivial = distinct (key kind, protection mode, scrypt parameters, op kinds used) of cases with at least one reload")
 	g := r.Rng
-	nCases := r.Pick(10, 200)
+	nCases := r.Pick(10, 100)
 	pws := func() []byte {
 		switch g.Intn(9) {
 		case 0:
@@ -814,7 +819,17 @@ func (f *walletFam) Gen(r *hx.Run) {
 	for c := 0; c < nCases; c++ {
 		r.Case(fmt.Sprintf("w-%d", c))
 		low := c%3 != 0 // one third of the wallets use the (slow) default scrypt parameters
-		if low {
+		if r.Thorough() {
+			// thorough: 1/6 default parameters, 2/6 low-security, 3/6 cheap custom parameters
+			low = c%6 != 0
+			if c%6 >= 3 {
+				r.Do("open tiny")
+			} else if low {
+				r.Do("open low")
+			} else {
+				r.Do("open def")
+			}
+		} else if low {
 			r.Do("open low")
 		} else {
 			r.Do("open def")
@@ -978,7 +993,16 @@ func (f *walletFam) Gen(r *hx.Run) {
 			i := g.Intn(len(ents))
 			if f.liveFor(ents[i].sym) != nil && len(ents[i].pw) > 0 {
 				r.Do("ximport " + ents[i].sym)
-				r.Do("exportlow")
+				{
+					var p []string
+					for _, l := range f.order {
+						p = append(p, hx.Hex(l.pw))
+					}
+					if len(p) == 0 {
+						p = []string{"-"}
+					}
+					r.Do("exportlow " + strings.Join(p, ",")) // passwords in wallet-file order, as the CLI asks for them
+				}
 				r.Do("save")
 				r.Do("auditlive")
 				np2 := append([]byte("second-"), pws()...)
